@@ -759,6 +759,8 @@ impl AssetExpr {
         match &self.policy {
             Expression::None => None,
             Expression::Bytes(x) => Some(x.as_slice()),
+            // a policy given by the name of its definition (`policy P = 0x..;`)
+            Expression::Hash(x) => Some(x.as_slice()),
             _ => None,
         }
     }
